@@ -1083,6 +1083,11 @@ func (p *Parser) parseTernary(conditionNode ast.Node) ast.Node {
 func (p *Parser) parseGroupedExpr() ast.Node {
 	p.nextToken()
 	exp := p.parseExpression(LOWEST)
+	if exp == nil {
+		// e.g. a line break directly after the opening parenthesis
+		p.setTokenError(p.curToken, "invalid syntax in grouped expression")
+		return nil
+	}
 	if !p.expectPeek("grouped expression", token.RPAREN) {
 		return nil
 	}
